@@ -347,3 +347,29 @@ def transpose_on_non_try_programs():
                     _, mb, d, _ = fp.bodies(p)
                     progs.append(Prog("transpose-non-try/%s/%s/%s/%d" % (mac, opts, fp.pname(ds), wrap), rb, mb, fp.offset_rows(), "Full" if mac == "join" else "ProjSteps", meta={"macro": mac, "dsl": d, "ref": r}))
     return progs
+
+
+LAZY_FALSE_PRE = """fn job_a() -> i32 { ev0("0.0.j"); 1 }
+fn job_b() -> i32 { ev0("1.0.j"); 20 }
+fn tjob_a() -> Option<i32> { ev0("0.0.j"); Some(1) }
+fn tjob_b() -> Option<i32> { ev0("1.0.j"); Some(20) }
+"""
+
+
+def lazy_false_callable_programs():
+    """explicit `lazy_branches(false)` on the thread-spawning macros: the branch expression itself is what the branch thread runs, so a
+    branch that is a callable (fn item) is CALLED by its thread, once, and the step value is what it returns"""
+    progs = []
+    for mac in ("join_spawn", "spawn", "try_join_spawn", "try_spawn"):
+        is_try = mac.startswith("try")
+        a, b = ("tjob_a", "tjob_b") if is_try else ("job_a", "job_b")
+        for steps in (1, 2):
+            t = (" ~|> |v: i32| { ev(\"%d.1.f\", &v); v + 1 }" if is_try else " ~-> |v: i32| { ev(\"%d.1.f\", &v); v + 1 }") if steps == 2 else ""
+            d = "%s! { lazy_branches(false) %s%s, %s }" % (mac, a, t % 0 if t else "", b)
+            if is_try:
+                r = "{ let a = %s(); let b = %s(); %s match (a, b) { (Some(a), Some(b)) => Some((a, b)), _ => None } }" % (a, b, "let a = a.map(|v: i32| { ev(\"0.1.f\", &v); v + 1 });" if steps == 2 else "")
+            else:
+                r = "{ let a = %s(); let b = %s(); %s (a, b) }" % (a, b, "let a = (|v: i32| { ev(\"0.1.f\", &v); v + 1 })(a);" if steps == 2 else "")
+            fm = '\nformat!("{:?}", x)'
+            progs.append(Prog("lazyfalse/%s/%d" % (mac, steps), "let x = %s;%s" % (r, fm), "let x = %s;%s" % (d, fm), [[0]], "ProjSteps", pre=LAZY_FALSE_PRE, meta={"macro": mac, "dsl": d, "ref": r}))
+    return progs
